@@ -17,6 +17,7 @@ for c in $(git log --format=%h --grep='^fix:'); do
       *"racing ExpireAll"*) n=revert_prepareread_order;;
       *"restored into an UnlimitedTTL"*) n=revert_restore_expirations;;
       *"jittered down to exactly zero"*) n=revert_zero_jittered_ttl;;
+      *"waited for a key lock owner which did not build"*) n=revert_skipread_waiter;;
       *) n=revert_$c;;
     esac
   fi
